@@ -4481,6 +4481,8 @@ class Pointer(Subconstruct):
         return 0
 
     def _emitparse(self, code):
+        if self.stream is not None:
+            raise NotImplementedError("Pointer with another stream is not compiled")
         code.append(f"""
             def parse_pointer(io, offset, func):
                 fallback = io.tell()
@@ -4492,6 +4494,8 @@ class Pointer(Subconstruct):
         return f"parse_pointer(io, {self.offset}, lambda: {self.subcon._compileparse(code)})"
 
     def _emitbuild(self, code):
+        if self.stream is not None:
+            raise NotImplementedError("Pointer with another stream is not compiled")
         code.append(f"""
             def build_pointer(obj, io, offset, func):
                 fallback = io.tell()
